@@ -244,6 +244,38 @@ Definition sem_java (tok : text) (a b : jval) : option bool :=
       end
   end.
 
+(** [java.util.Objects.equals(a, b)] on two references: [a.equals(b)], which for
+    [String], [Long], [Float], [Boolean] compares the class and the value, and for enum
+    constants the identity. (Both operands are non-null: the transpiler unwraps optionals
+    under a presence check.) Primitive operands never reach these templates. *)
+Definition jobj_equals (a b : jobj) : bool :=
+  match a, b with
+  | OLong x, OLong y => Z.eqb x y
+  | OFloat x, OFloat y => Z.eqb x y
+  | OBool x, OBool y => bool_eqb x y
+  | OStr x, OStr y => text_eqb x y
+  | OEnum e k, OEnum e' k' => Nat.eqb e e' && Nat.eqb k k'
+  | _, _ => false
+  end.
+
+Definition sem_java_objects_equals (negated : bool) (a b : jval) : option bool :=
+  match a, b with
+  | JRef _ x, JRef _ y => Some (if negated then negb (jobj_equals x y) else jobj_equals x y)
+  | _, _ => None
+  end.
+
+(** The by-value templates are either absent (the transpiler writes [==]/[!=] for every
+    comparison) or exactly [Objects.equals(left, right)] and [!Objects.equals(left, right)]. *)
+Definition value_eq_templates_ok (ts : list (bool * list text)) : bool :=
+  match ts with
+  | [] => true
+  | [(n1, h1); (n2, h2)] =>
+      negb (bool_eqb n1 n2)
+      && list_eqb text_eqb h1 [[108;101;102;116]%N; [114;105;103;104;116]%N]
+      && list_eqb text_eqb h2 [[108;101;102;116]%N; [114;105;103;104;116]%N]
+  | _ => false
+  end.
+
 (** [java_repr v j]: [j] is a way the Java SDK may hold the Python value [v]. Boxed
     numbers, booleans and strings may live at *any* address (two equal strings read
     from a JSON document are two objects); enum constants live at their own address. *)
